@@ -1435,6 +1435,7 @@ class Program:
                 base = {k: None for k in base}
             self.baseline = base
             self.renamed = apply_renames(self, base)
+            self.duals = normalise_duals(self, set(base))
             self.inlined = inline_new_helpers(self, set(base))
 
     def scope_of(self, key, depth=2):
@@ -2169,6 +2170,61 @@ def _devirtualize(P, f, only_if_new=True):
     if n:
         _reset_fn(f)
     return n
+
+
+def normalise_duals(P, baseline):
+    """A pinned predicate h whose body became `!g(same arguments)` for a NEW function g (the De Morgan dual: `applies` = `!admits`)
+    keeps its meaning; calls to g elsewhere (and g's own recursion) are rewritten to `!h(..)`, so that rules keep reading facts about h.
+    Returns [(g, h)]."""
+    out = []
+    for h in list(P.fn_list):
+        if h.kind not in ('fn', 'assocfn') or h.key not in baseline or h.local_ty(0) != 'bool' or len(h.blocks) > 4:
+            continue
+        calls = [(b, h.blocks[b]['t']) for b in range(len(h.blocks)) if h.blocks[b]['t']['k'] == 'call']
+        if len(calls) != 1:
+            continue
+        b0, t0 = calls[0]
+        gk = strip_generics(t0.get('res') or t0.get('callee') or '')
+        g = P.fns.get(gk)
+        if g is None or gk in baseline or g is h or g.kind not in ('fn', 'assocfn') or g.argc != h.argc or g.local_ty(0) != 'bool':
+            continue
+        rts = [peel(t) for _, t in ret_trees_core(h)]
+        ok = bool(rts) and all(t[0] == 'un' and t[1] == 'Not' and peel(t[2])[0] == 'call' and peel(t[2])[1] == gk and
+                                 all(peel(a)[0] == 'arg' and peel(a)[1] == i + 1 for i, a in enumerate(peel(t[2])[2])) for t in rts)
+        if not ok:
+            continue
+        for f in P.fn_list:
+            if f is h or f.kind == 'promoted':
+                continue
+            for b in range(len(f.blocks)):
+                t = f.blocks[b]['t']
+                if t['k'] != 'call' or strip_generics(t.get('res') or t.get('callee') or '') != gk or t.get('t') is None or t['dest']['pr']:
+                    continue
+                tmp = len(f.locals)
+                f.locals.append({'ty': 'bool', 'tyj': {'k': 'prim', 's': 'bool'}})
+                nb = len(f.blocks)
+                f.blocks.append({'s': [{'k': 'assign', 'p': copy.deepcopy(t['dest']), 'r': {'k': 'unop', 'op': 'Not', 'a': {'k': 'move', 'p': {'l': tmp, 'pr': []}}},
+                                        'ln': t.get('ln'), 'exp': 'dual'}],
+                                 't': {'k': 'goto', 't': t['t'], 'ln': t.get('ln')}, 'cleanup': f.blocks[b]['cleanup']})
+                nt = dict(t)
+                nt['callee'] = h.path
+                nt['res'] = h.path
+                nt['dest'] = {'l': tmp, 'pr': []}
+                nt['t'] = nb
+                f.blocks[b]['t'] = nt
+                _reset_fn(f)
+        out.append((gk, h.key))
+    if out:
+        P._cg = None
+        P._callers = None
+    return out
+
+
+def ret_trees_core(f):
+    out = []
+    for b in f.return_blocks():
+        out.append((b, f.expr_local(0, b, 'T')))
+    return out
 
 
 def inline_new_helpers(P, baseline, max_depth=4, max_blocks=120):
